@@ -169,7 +169,8 @@ fn string_of(cs: Charset, n: usize, p: usize) -> String {
                 1 => vec!['é', 'z', '€', '𝄞', ' '],
                 _ => vec!['\u{7f}', '\u{80}', '\u{7ff}', '\u{800}', '\u{ffff}', '\u{10000}', 'A'],
             };
-            (0..n).map(|i| pool[(i * 7 + p) % pool.len()]).collect()
+            // the multiplier is coprime to both pool lengths, so every scalar of the pool appears
+            (0..n).map(|i| pool[(i * 3 + p) % pool.len()]).collect()
         }
         _ => {
             let a = cs.alphabet();
@@ -240,6 +241,18 @@ fn values_d(m: &Module, ty: &Ty, b: &Budget, depth: usize) -> Vec<Value> {
             // a multi-octet character lying across an octet offset that is a power of two (code that cuts
             // or copies a decoded string at a fixed octet count meets the middle of a character)
             if !nested && *cs == Charset::Utf8 {
+                // three long strings of three-octet characters, shifted by 0, 1 and 2 octets: every octet offset
+                // behind the first two lies inside a character in two of them, whatever fixed count code cuts at
+                let longest = sizes_for_cheap(size, b, false).into_iter().filter(|n| *n <= 17000).max().unwrap_or(0);
+                if longest >= 8 {
+                    for shift in 0..3usize {
+                        let mut t: String = std::iter::repeat('a').take(shift).collect();
+                        while (t.chars().count() as u64) < longest {
+                            t.push('€');
+                        }
+                        out.push(Value::Str(t));
+                    }
+                }
                 for at in [16u64, 64, 256, 1024] {
                     let n = at + 2;
                     if size.contains(n) && n <= b.max_size {
